@@ -991,7 +991,30 @@ fn gen_c11(case_seed: u64, case: u64, tier: Tier) -> Plan {
 	let mut steps = Vec::new();
 	let n_readers = 2u8;
 	let mut open = [false; 4];
+	// a quarter of the cases: "the running store" includes one that takes a checkpoint and
+	// later restores it - value-log file ids are handed out again in the restored timeline,
+	// and whatever the store caches per file id must not outlive the restore
+	let (cp_at, restore_at) = if rng.chance(1, 4) {
+		let c = rng.below(n);
+		(c, c + 1 + rng.below(n - c))
+	} else {
+		(u64::MAX, u64::MAX)
+	};
 	for i in 0..n {
+		if i == cp_at {
+			steps.push(Step::Checkpoint);
+		}
+		if i == restore_at {
+			for a in 1..=n_readers {
+				if open[a as usize] {
+					steps.push(Step::DropTxn { a });
+					open[a as usize] = false;
+				}
+			}
+			steps.push(Step::Probe); // reads (and caches) values of the timeline to be discarded
+			steps.push(Step::Restore);
+			steps.push(Step::Probe);
+		}
 		steps.push(Step::Begin { a: 0, mode: ModeS::ReadWrite });
 		let mut left = 2400u32;
 		for _ in 0..rng.range(1, 3) {
@@ -1231,6 +1254,24 @@ fn gen_c14(case_seed: u64, _case: u64, tier: Tier) -> Plan {
 	}
 	let mut p = base_plan("C14", case_seed, opts, keys, steps);
 	p.gate_tasks = rng.chance(1, 2);
+	// create_checkpoint flushes on the caller's thread while the background tasks are alive:
+	// a third of the cases let a flush / a compaction round / a probe run in the middle of a
+	// flush (the checkpoint's among them) or of a compaction
+	if rng.chance(1, 3) {
+		for label in ["flush.pre_manifest", "compact.pre_manifest", "compact.pre_cleanup"] {
+			if rng.chance(1, 2) {
+				let mut ws = vec![match rng.below(3) {
+					0 => Step::FlushOne,
+					1 => Step::FlushAll,
+					_ => Step::CompactRound,
+				}];
+				if rng.chance(1, 2) {
+					ws.push(Step::Probe);
+				}
+				p.windows.push(Window { label: label.into(), nth: rng.range(1, 8) as u32, steps: ws });
+			}
+		}
+	}
 	p.params.insert("defer_spawned".into(), rng.below(2) as i64);
 	p
 }
